@@ -204,9 +204,21 @@ Definition is_rows (r : response) : bool := match r with RespRows _ _ _ => true 
 Definition is_ok_run (x : exec_result) : bool := match x with RunOk => true | _ => false end.
 Definition mergeable_and_peers (e : env) : bool := (2 <=? e_members_up e) && e_plannable e.
 
+(* the request is one that reaches the engine and whose result the chosen writer can carry *)
+Definition request_valid (rq : request) : bool :=
+  match result_format_parse (r_query rq) with Some _ => true | None => false end
+  && (r_body_len rq <=? MAX_SQL_BODY_BYTES) && r_body_utf8 rq && negb (r_body_blank rq) && r_encodes rq.
+(* the modes/states in which the property wants the LOCAL engine's answer: local mode, and auto mode unless the
+   shape is exactly mergeable AND at least two members are up (members last seen Up; a peer that discovery has
+   listed but no probe has reached yet does not count) *)
+Definition should_be_local (m : dist_mode) (e : env) : bool :=
+  match m with Off => true | Force => false | Auto => negb (mergeable_and_peers e) end.
+Definition is_local_rows (o : response) : bool :=
+  match o with RespRows _ false (Some _) => true | _ => false end.
+
 (* `rows_ok` is computed by the check: the decoded body is, as a bag, exactly the engine's rows and the x-qe-rows
-   header is their number *)
-Definition spec_ok (m : dist_mode) (e : env) (o : response) (rows_ok : bool) : bool :=
+   header is their number.  `valid` is request_valid of the request. *)
+Definition spec_ok (m : dist_mode) (e : env) (valid : bool) (o : response) (rows_ok : bool) : bool :=
   match e_load e with
   | Loaded =>
       match o with
@@ -224,6 +236,9 @@ Definition spec_ok (m : dist_mode) (e : env) (o : response) (rows_ok : bool) : b
           && is_ok_run (e_dist e) && rows_ok
       | _ => true
       end
+      (* "... and otherwise answers locally with a reason": when the answer is the local engine's to give and the
+         local engine has one, the response IS that answer - not an error from a fan-out that should not have happened *)
+      && (if valid && should_be_local m e && is_ok_run (e_local e) then is_local_rows o else true)
   | _ => negb (is_rows o)          (* not loaded: never an answer *)
   end.
 
